@@ -279,23 +279,24 @@ def rules(ctx, tier):
     for e in ctx.fx.of_kind("FS_RENAME"):
         if not (e.classes2 and e.classes2 <= {"CAS_BLOB"}):
             continue
-        b = e.site.body
-        rf = ctx.must(None).rf(b)
-        errs = rf.err_edges_of(e.site.bb)
-        for bb, kind in rf.forwarded.items():
-            if kind != "ok":
-                continue
-            oks = rf.ok_edges_of(e.site.bb)
-            if oks and cfgutil.edges_dominate(b, oks, bb):
-                continue
-            # Ok exit on the error arm: must pass an unlink of the staging path
-            unl = [x.site for x in ctx.fx.effects if x.site.body.path == b.path and x.kind == "FS_UNLINK"
-                   and x.classes <= {"STAGING_FILE"} and x.classes]
-            ok = any(b.dominates(u.bb, bb) and rf.ok_edges_of(u.bb) and cfgutil.edges_dominate(b, rf.ok_edges_of(u.bb), bb)
-                     for u in unl)
-            r.check(ok, "exists-arm-unlinks-staging", b,
-                    "when the destination already exists, %s removes the staging file before returning Ok" % b.path,
-                    "%s can return Ok on the 'already exists' arm and leave the staging file behind" % b.path)
+        for (b, rsite) in ctx.result_views(e.site):
+            rf = ctx.rf(b)
+            errs = rf.err_edges_of(rsite.bb)
+            for bb, kind in rf.forwarded.items():
+                if kind != "ok":
+                    continue
+                oks = rf.ok_edges_of(rsite.bb)
+                if oks and cfgutil.edges_dominate(b, oks, bb):
+                    continue
+                # Ok exit on the error arm: must pass an unlink of the staging path
+                unl0 = [x.site for x in ctx.fx.effects if x.site.body.path == b.path and x.kind == "FS_UNLINK"
+                        and x.classes <= {"STAGING_FILE"} and x.classes]
+                unl = [fs for u in unl0 for fs in ctx.flat_sites_of(b, u)] if getattr(b, "is_flat", False) else unl0
+                ok = any(b.dominates(u.bb, bb) and rf.ok_edges_of(u.bb) and
+                         cfgutil.edges_dominate(b, rf.ok_edges_of(u.bb), bb) for u in unl)
+                r.check(ok, "exists-arm-unlinks-staging", e.site.body,
+                        "when the destination already exists, %s removes the staging file before returning Ok" % b.path,
+                        "%s can return Ok on the 'already exists' arm and leave the staging file behind" % b.path)
     r.ok("scan", None, "no keep/persist/into_temp_path/forget on temp objects")
     r.need(2, "ownership + scan")
     out.append(r.finish())
@@ -304,7 +305,11 @@ def rules(ctx, tier):
              "a blob that could not be deleted is silently left behind (or a real error is reported as success)")
     # judged at the unlink syscall, in the flat view of the function that supplies the path when the syscall sits in a
     # private helper (whose outcome enum the caller turns into an error report)
-    for (b, site, kb0) in ctx.concrete_occurrences("BLOB_UNLINK"):
+    occs = []
+    for (b_, site_, kb0_) in ctx.concrete_occurrences("BLOB_UNLINK"):
+        for (b2_, s2_) in ctx.result_views(site_):
+            occs.append((b2_, s2_, kb0_))
+    for (b, site, kb0) in occs:
         if (site.path or "") not in ("std::fs::remove_file",):
             continue
         rf = ctx.rf(b)
@@ -339,6 +344,11 @@ def rules(ctx, tier):
                 nb = cfgutil.reach(b, t_ne, removed_blocks=[sb])
                 errish = any(rf.forwarded.get(y) == "err" for y in nb) or any(
                     (b.blocks[y]["term"]["k"] == "call" and term_path(b.blocks[y]["term"]) == "std::vec::Vec::push") for y in nb)
+                if not errish and getattr(b, "is_flat", False):
+                    # in a view the error may be built by an inlined closure / helper and handed up through wrappers
+                    # (`Some(Err(e))` .. `.unwrap_or(..)`): an `Err(..)` value is built on the way
+                    errish = any(st_["k"] == "assign" and st_["rv"]["k"] == "agg" and st_["rv"].get("def") == "std::result::Result"
+                                 and st_["rv"].get("vn") == "Err" for y in nb for st_ in b.stmts(y))
                 r.check(errish, "other-kinds-reported:%s" % kb0.path.split("::")[-1], kb0,
                         "any other error of the unlink at %s is reported" % site_where(site),
                         "errors other than the tolerated kind of the unlink at %s are dropped" % site_where(site), site_where(site))
@@ -349,7 +359,9 @@ def rules(ctx, tier):
     # lock, in one hold with the apply step
     shared = dict((x.rid, x) for x in c04.rules(ctx, tier))
     for (src, rid, title) in (("R1", "R5", "a dereferenced blob is unlinked under the protocol lock (shared with C04-R1)"),
-                              ("R4", "R6", "apply and delete happen under one continuous hold of the protocol lock (shared with C04-R4)")):
+                              ("R4", "R6", "apply and delete happen under one continuous hold of the protocol lock (shared with C04-R4)"),
+                              ("R3", "R8", "content is stored before it is referenced: the intent is registered first, the publish "
+                                           "step is not skipped, and the index is updated behind it (shared with C04-R3)")):
         x = shared.get(src)
         if x is not None:
             x.rid = rid
